@@ -297,6 +297,7 @@ class Lanes:
         """tasks: list of (key, task); returns dict key -> outcome; truncated flag"""
         results = {}
         pending = list(reversed(tasks))
+        retried = set()
         truncated = False
         busy = {}
         while pending or busy:
@@ -321,10 +322,17 @@ class Lanes:
                 try:
                     results[key] = _recv(fd)
                 except Exception:
-                    results[key] = {"status": "harness_error", "violations": [], "idx": key,
-                                    "error": "lane died while executing the episode"}
+                    # the lane process died (e.g. a crash in native code after many episodes): the episode is
+                    # retried once in a fresh lane; only a second death is a harness error
+                    task = lane.task[1]
                     lane.kill()
                     lane.start()
+                    if key in retried:
+                        results[key] = {"status": "harness_error", "violations": [], "idx": key,
+                                        "error": "lane died twice while executing the episode"}
+                    else:
+                        retried.add(key)
+                        pending.append((key, task))
                 lane.task = None
             for fd, lane in list(busy.items()):
                 if now - lane.t_start > EPISODE_TIMEOUT:
